@@ -212,6 +212,36 @@ def judge_network(stable):
     return judge
 
 
+def judge_set(what, wid):
+    """Set-valued answers (cited / citing / child webentities): between the intersection and
+    the union of the atomic answers (None = 'no webentity' is ignored)."""
+
+    def judge(e, qi):
+        ans = e.res[qi]
+        got = frozenset(x for x in ans if x is not None)
+        ms = [frozenset(x for x in m if x is not None) for m in e.moments[qi]]
+        out = []
+        lo = frozenset.intersection(*ms)
+        hi = frozenset.union(*ms)
+        if lo - got:
+            out.append(("item-missing", "%s of webentity %r: %r was in the atomic answer at every step boundary but is not in the answer %r" % (what, wid, sorted(lo - got), sorted(got)), None))
+        if got - hi:
+            out.append(("item-never-qualified", "%s of webentity %r: %r is in the answer although it was in the atomic answer at no step boundary (atomic answers: %r)" % (what, wid, sorted(got - hi), sorted(hi)), None))
+        return out
+
+    return judge
+
+
+def _safe(fn):
+    def g(t):
+        try:
+            return frozenset(fn(t))
+        except Exception:
+            return frozenset()
+
+    return g
+
+
 def judge_most(wid, prefixes):
     def judge(e, qi):
         ans = e.res[qi]
@@ -252,6 +282,11 @@ def menu():
     m["plinks2"] = Query("plinks2", lambda t: t.get_webentity_pagelinks_iter(2, [Ax], include_inbound=True, include_internal=True, include_outbound=True), lambda t: plinks_map(t, 2, [Ax]), judge_plinks(2, [Ax]))
     m["net"] = Query("net", lambda t: t.get_webentities_links_iter(out=True, include_auto=True), lambda t: network(t, True), None)
     m["netin"] = Query("netin", lambda t: t.get_webentities_links_iter(out=False, include_auto=True), lambda t: network(t, False), None)
+    m["outl1"] = Query("outl1", lambda t: t.get_webentity_outlinks_iter(1, WE1), _safe(lambda t: t.get_webentity_outlinks(1, WE1)), judge_set("cited webentities", 1))
+    m["inl1"] = Query("inl1", lambda t: t.get_webentity_inlinks_iter(1, WE1), _safe(lambda t: t.get_webentity_inlinks(1, WE1)), judge_set("citing webentities", 1))
+    m["outl2"] = Query("outl2", lambda t: t.get_webentity_outlinks_iter(2, [Ax]), _safe(lambda t: t.get_webentity_outlinks(2, [Ax])), judge_set("cited webentities", 2))
+    m["child1"] = Query("child1", lambda t: t.get_webentity_child_webentities_iter(1, WE1), _safe(lambda t: t.get_webentity_child_webentities(1, WE1)), judge_set("child webentities", 1))
+    m["netslow"] = Query("netslow", lambda t: t.get_webentities_links_slow_iter(out=True, include_auto=True), lambda t: network(t, True), None)
     m["most1"] = Query("most1", lambda t: t.get_webentity_most_linked_pages_iter(1, WE1, pages_count=3), lambda t: pages_set(t, 1, WE1), judge_most(1, WE1))
     return m
 
@@ -282,6 +317,21 @@ def combos(tier):
         (("crawlB", "netin"), 3, 5),
         (("rule", "net"), 3, 5),
         (("plinks1", "plinks2"), 2, 3),
+        # the remaining *_iter queries, against writers and against one another (two
+        # traversals / two link-list walks suspended at the same time)
+        (("crawlA", "outl1"), 3, 5),
+        (("crawlB", "inl1"), 3, 5),
+        (("crawlC", "outl2"), 3, U),
+        (("crawlA", "child1"), 3, 5),
+        (("rule", "child1"), 3, 5),
+        (("crawlA", "netslow"), 2, 4),
+        (("outl1", "inl1"), 2, 3),
+        (("outl1", "outl2"), 2, 3),
+        (("outl1", "plinks2"), 2, 3),
+        (("inl1", "net"), 2, 3),
+        (("pages1", "pages2"), 2, 3),
+        (("pages1", "child1"), 2, 3),
+        (("netslow", "outl2"), 2, 3),
         # a plain request landing at every yield point of a generator
         (("crawlA", "linksX"), U, U),
         (("crawlB", "linksX"), U, U),
